@@ -787,7 +787,8 @@ namevals = {}
 def final():
     if autoprove: backend.prove()
     else :
-        if backend.process_snark: backend.process_snark(operation,namevals)
+        process_snark = getattr(backend, "process_snark", None)
+        if process_snark: process_snark(operation,namevals)
 
 import atexit
 from .atexitmaybe import maybe
